@@ -28,7 +28,37 @@ impl Exec {
         if line.starts_with("note ") {
             return "ok".into();
         }
-        self.world.exec(line)
+        // a panic inside the VM itself (not a contract panic, which the VM turns into a failed transaction) must
+        // not end the run.  The debug VM panics when value is sent to an address that has no account yet (on the
+        // real chain receiving creates the account): create it and run the operation again — the VM commits
+        // nothing before a transaction completes.  Any other VM panic is reported as the outcome `crash`.
+        for _ in 0..4 {
+            let r = std::panic::catch_unwind(std::panic::AssertUnwindSafe(|| self.world.exec(line)));
+            match r {
+                Ok(out) => return out,
+                Err(e) => {
+                    let msg = if let Some(s) = e.downcast_ref::<String>() {
+                        s.clone()
+                    } else if let Some(s) = e.downcast_ref::<&str>() {
+                        s.to_string()
+                    } else {
+                        "panic".to_string()
+                    };
+                    if let Some(rest) = msg.strip_prefix("Account ") {
+                        if let Some(hexaddr) = rest.strip_suffix(" not found") {
+                            if let Ok(b) = hex::decode(hexaddr.trim_start_matches("0x")) {
+                                if b.len() == 32 {
+                                    self.world.create_account(&b);
+                                    continue;
+                                }
+                            }
+                        }
+                    }
+                    return format!("crash # {}", msg.replace('\n', " "));
+                }
+            }
+        }
+        "crash # account creation did not help".into()
     }
 }
 
